@@ -18,7 +18,7 @@ RULE = ("(a) schedules (source-line granularity) of {accept thread submitting 2-
 ASSUMPTIONS = ["scheduling points are source lines of Pool/Worker methods and the job body; CPython can also switch between bytecodes of one line",
                "a job accepted just before a racing close() may be dropped (the statement's 'starts no further job'); only runs without close require every accepted job to run",
                "a refusal is illegitimate only if accepted-minus-completed(notify_done returned) < THREADPOOL_SIZE at process() entry"]
-REQUIRED_REACH = ["pool_resizes_followed", "hook_connections_to_sibling_daemon_served", "schedules_explored", "jobs_executed", "refusals_seen", "closes_completed", "socket_clients_served", "socket_clients_refused", "unix_socket_runs", "proxy_retries_after_refusal", "start_faults_injected", "workers_killed_by_exiting_jobs", "full_pool_refusals_checked"]
+REQUIRED_REACH = ["slow_hello_refusals_checked", "pool_resizes_followed", "hook_connections_to_sibling_daemon_served", "schedules_explored", "jobs_executed", "refusals_seen", "closes_completed", "socket_clients_served", "socket_clients_refused", "unix_socket_runs", "proxy_retries_after_refusal", "start_faults_injected", "workers_killed_by_exiting_jobs", "full_pool_refusals_checked"]
 SHARD_TIMEOUT = {"quick": 240, "thorough": 3000}
 
 
@@ -434,6 +434,23 @@ def socket_run(P, rec, r, size, nclients, inject, unix=False):
                             break
                         rec.count("full_pool_refusals_checked")
                     else:
+                        # a client that is slow to say hello (its connect message comes seconds after its connection): the answer is the same
+                        c = wire.RawClient(fx.location, timeout=15.0)
+                        try:
+                            time.sleep(2.6)
+                            c.send(wire.encode(wire.CONNECT, 0, 0, ser.serializer_id, ser.dumps({"handshake": "hello", "object": "svc"})))
+                            try:
+                                m = c.recv_msg()
+                                text = repr(P.serializers.serializers_by_id[m.ser].loads(m.data)) if m.type == wire.CONNECTFAIL else "message type %d" % m.type
+                            except (EOFError, OSError) as x:
+                                m, text = None, "no answer at all (%r)" % (x,)
+                        finally:
+                            c.close()
+                        rec.case(("full-pool-slow-hello", size, unix))
+                        if m is None or m.type != wire.CONNECTFAIL or "no free workers" not in text:
+                            rec.violation("connection-dropped-silently" if m is None else "refusal-without-reason", "all %d workers busy; a client that sent its connect message 2.6 s after connecting got: %s" % (size, text), pay)
+                        else:
+                            rec.count("slow_hello_refusals_checked")
                         # THREADPOOL_SIZE is a configuration item like any other: the value it has when a connection arrives decides. Raised by
                         # two while the pool is full: not all THREADPOOL_SIZE workers are busy any more, two more clients are served, the third is
                         # refused. (Lowering the limit is not judged: idle workers of a larger pool are reused on the pinned tree, and the
